@@ -48,6 +48,7 @@ def run(rep, tier):
     # every exact predicate this property rests on is a sign of the orientation kernel (rules shared with C03)
     from . import c03 as _c03
     _c03.kernel_rules(rep, F, "R5.11")
+    offset_witnesses(rep, F)
 
 
 def area_kernels(rep, F):
@@ -287,26 +288,51 @@ def ring_area(rep, F):
     rep.ok("R5.3", "shoelace-identity[2..5 coordinates]")
 
 def simple_areas(rep, F, ex):
-    rep.rule("R5.4", "Rect area = width*height (both forms); Triangle signed area = (sum of the determinants of its three edges) / 2")
-    try:
+    """R5.4: Rect and Triangle areas on grid witnesses with mixed signs and both vertex orders, through the extracted path tables (accessors of
+    geo_types inlined, numeric evaluation): Rect signed = unsigned = width * height; Triangle signed = half the shoelace sum of its vertices in
+    stored order, unsigned = its absolute value.  (An earlier form matched the TERM `fold(to_lines, 0, acc + determinant) / 2`, which the
+    repair of the far-offset defect - shifting by a vertex first - changes without changing the value.)"""
+    import itertools
+    from ..numeval import NumEval
+    from ..evalterm import NoModel
+    rep.rule("R5.4", "Rect area = width * height (signed and unsigned); Triangle signed area = half the shoelace sum in stored vertex order, unsigned = |signed| - on grid witnesses with mixed signs and both orders (numeric evaluation of the path tables)")
+    Cn = lambda n: ("opaque", n)
+    G = [(-2.0, 1.0), (0.0, 0.0), (3.0, -1.0), (1.5, 2.5), (4.0, 4.0)]
+    shapes = [
+        ("rect", r"^%srect::Rect<T>$" % GT, ("adt", GT + "rect::Rect", "Rect", (Cn("c0"), Cn("c1"))),
+         [(a, b) for a in G for b in G if a[0] <= b[0] and a[1] <= b[1]], lambda w: (w[1][0] - w[0][0]) * (w[1][1] - w[0][1])),
+        ("triangle", r"^%striangle::Triangle<T>$" % GT, ("adt", GT + "triangle::Triangle", "Triangle", (Cn("c0"), Cn("c1"), Cn("c2"))),
+         list(itertools.permutations(G, 3)), lambda w: ((w[1][0] - w[0][0]) * (w[2][1] - w[0][1]) - (w[2][0] - w[0][0]) * (w[1][1] - w[0][1])) / 2.0),
+    ]
+    for name, pat, shape, wit, ref in shapes:
         for meth in ("signed_area", "unsigned_area"):
-            fn = F.impl_method(AREA, r"^%srect::Rect<T>$" % GT, None, meth, crates=("geo",))
-            ps = single(ex, fn)
-            r = bare(ps[0].ret)
-            if r == "mul(width(a1), height(a1))":
-                rep.ok("R5.4", "rect:" + meth)
+            key = "%s:%s" % (name, meth) if name == "rect" else ("triangle" if meth == "signed_area" else "triangle:unsigned_area")
+            try:
+                fn = F.impl_method(AREA, pat, None, meth, crates=("geo",))
+                sx = Symex(F, concrete_iters=True, loop_bound=8, inline_crates=("geo", "geo_types"), max_depth=14, max_paths=5000)
+                sx.resolve_by_receiver = True
+                sx.pure_assign_ops = True
+                paths = [p for p in sx.run(fn, args=[("&", shape)]) if p.kind != "cut"]
+            except (KeyError, Unanalysable) as e:
+                rep.bad("R5.4", key + ":unanalysable", str(e))
+                continue
+            bad = None
+            for w in wit:
+                ev = NumEval(F, {Cn("c%d" % i): {"x": c[0], "y": c[1]} for i, c in enumerate(w)})
+                try:
+                    hit = ev.select_path(paths)
+                    got = [float(ev.ev(h.ret)) for h in hit if h.kind == "ret"]
+                except (NoModel, TypeError, KeyError, ValueError) as e:
+                    bad = "cannot be evaluated on %s: %s" % (list(w), e)
+                    break
+                want = ref(w) if meth == "signed_area" else abs(ref(w))
+                if len(got) != 1 or abs(got[0] - want) > 1e-9:
+                    bad = "%s of %s%s evaluates to %s, the definition gives %s" % (meth, name, list(w), got, want)
+                    break
+            if bad:
+                rep.bad("R5.4", key, bad, where=fn.loc())
             else:
-                rep.bad("R5.4", "rect:" + meth, "Rect::%s is %s" % (meth, r[:80]), where=fn.loc())
-        fn = F.impl_method(AREA, r"^%striangle::Triangle<T>$" % GT, None, "signed_area", crates=("geo",))
-        ps = single(ex, fn)
-        r = bare(ps[0].ret)
-        body = lam_body(ex, ps[0].ret)
-        if re.match(r"^div\(fold\(.*to_lines\(a1\).*zero\(\), closure", r) and r.endswith("add(one(), one()))") and body == "add(bound(0), determinant(bound(1)))":
-            rep.ok("R5.4", "triangle", sample=body)
-        else:
-            rep.bad("R5.4", "triangle", "Triangle::signed_area is %s with step %s" % (r[:100], body), where=fn.loc())
-    except (KeyError, Unanalysable, IndexError) as e:
-        rep.bad("R5.4", "anchor", str(e))
+                rep.ok("R5.4", key, sample="%d witnesses" % len(wit))
 
 
 def winding(rep, F):
@@ -718,3 +744,64 @@ def orient_tables(rep, F, rule="R5.9"):
             n_ok += 1
             rep.ok(rule, "orient:%s[%d assignments]" % (key, k))
     rep.floor(rule, "orient tables", n_ok, 2)
+
+
+def offset_witnesses(rep, F, rule="R5.12"):
+    """signed_area of Triangle, Rect and a Polygon ring of 4 coordinates on witnesses translated by 1e8 (the property's own example), evaluated
+    through the extracted path tables in IEEE doubles in the order the code performs them: the value stays within 1e-6 of the exact area
+    (computed in rationals).  A shoelace sum of un-shifted determinants loses the area entirely at that offset (products near 1e16, one unit
+    in the last place is 2): the kernels shift by a vertex first."""
+    from fractions import Fraction
+    from ..numeval import NumEval
+    from ..evalterm import NoModel
+    rep.rule(rule, "signed_area of Triangle / Rect / a 4-coordinate Polygon ring translated by 1e8 (+ fractional parts), numeric evaluation of the extracted tables in operation order: within 1e-6 of the exact rational area")
+    O = 1.0e8
+    offs = [(0.0, 0.0), (0.3, 0.7), (1.0, 3.0), (123.456, 789.01), (5.5, 2.25)]
+    GTp = GT
+
+    def vec(items):
+        return ("call", "vec!", (("array", tuple(items)),))
+    Cn = lambda n: ("opaque", n)
+    shapes = [
+        ("Triangle", r"^%striangle::Triangle<T>$" % GTp, ("adt", GTp + "triangle::Triangle", "Triangle", (Cn("c0"), Cn("c1"), Cn("c2"))), [(0, 0), (1, 0), (0, 1)]),
+        ("Rect", r"^%srect::Rect<T>$" % GTp, ("adt", GTp + "rect::Rect", "Rect", (Cn("c0"), Cn("c1"))), [(0, 0), (2, 3)]),
+        ("Polygon", r"^%spolygon::Polygon<T>$" % GTp, ("adt", GTp + "polygon::Polygon", "Polygon", (("adt", GTp + "line_string::LineString", "LineString", (vec([Cn("c0"), Cn("c1"), Cn("c2"), Cn("c0")]),)), vec([]))),
+         [(0, 0), (1, 0), (0, 1)]),
+    ]
+    n_ok = 0
+    for name, pat, shape, base in shapes:
+        try:
+            fn = F.impl_method(AREA, pat, None, "signed_area", crates=("geo",))
+            ex = Symex(F, concrete_iters=True, loop_bound=10, inline_crates=("geo", "geo_types"), max_depth=14, max_paths=5000)
+            ex.resolve_by_receiver = True
+            ex.pure_assign_ops = True
+            paths = [p for p in ex.run(fn, args=[("&", shape)]) if p.kind != "cut"]
+        except (KeyError, Unanalysable) as e:
+            rep.bad(rule, "offset:%s:unanalysable" % name, str(e))
+            continue
+        bad = None
+        for dx, dy in offs:
+            cs = [(O + dx + x, O + dy + y) for x, y in base]
+            env = {Cn("c%d" % i): {"x": c[0], "y": c[1]} for i, c in enumerate(cs)}
+            ev = NumEval(F, env)
+            try:
+                hit = ev.select_path(paths)
+                got = [float(ev.ev(h.ret)) for h in hit if h.kind == "ret"]
+            except (NoModel, TypeError, KeyError, ValueError) as e:
+                bad = "cannot be evaluated on %s: %s" % (cs, e)
+                break
+            fr = [(Fraction(c[0]), Fraction(c[1])) for c in cs]
+            if name == "Rect":
+                exact = (fr[1][0] - fr[0][0]) * (fr[1][1] - fr[0][1])
+            else:
+                ring = fr + [fr[0]]
+                exact = sum(ring[i][0] * ring[i + 1][1] - ring[i + 1][0] * ring[i][1] for i in range(len(fr))) / 2
+            if len(got) != 1 or abs(got[0] - float(exact)) > 1e-6:
+                bad = "%s%s: signed_area evaluates to %s in doubles, the exact area is %s" % (name, [tuple(c) for c in cs], got, float(exact))
+                break
+        if bad:
+            rep.bad(rule, "offset:%s" % name, bad, where=fn.loc())
+        else:
+            n_ok += 1
+            rep.ok(rule, "offset:%s[%d witnesses at 1e8]" % (name, len(offs)))
+    rep.floor(rule, "offset tables", n_ok, 3)
